@@ -631,6 +631,7 @@ func (Scenario) Run(c choice.Chooser, opt sim.Options) sim.Result {
 	res.Count("sched:dumps", out.Dumps)
 	res.LogHash = out.Signature()
 	res.Sig = out.Signature()
+	res.DetHash = out.Decisions
 
 	history := func() []string {
 		var h []string
